@@ -319,6 +319,10 @@ pub fn gen_c14(rng: &mut Rng, _tier: Tier) -> NetProgram {
             t += if rng.chance(1, 3) { 0 } else { rng.below(2 * SEC) };
         }
         prog.modules[i].chained = rng.chance(1, 3);
+        // timer wake-ups are module events too (brackets without a message)
+        if rng.chance(1, 2) {
+            prog.modules[i].tasks = crate::asy::gen_tasks_c13(rng);
+        }
     }
     prog
 }
@@ -369,6 +373,22 @@ pub fn gen_c04(rng: &mut Rng, tier: Tier) -> NetProgram {
             prog.modules[i].rx.push(RxRule { nth: 1 + rng.below(4) as u32, act: Act::Random });
         }
         prog.modules[i].tasks = crate::asy::gen_tasks_c04(rng);
+    }
+    // modules may emit from at_sim_end: that must not reach any later simulation
+    if rng.chance(1, 3) {
+        let v = rng.usize(nmod);
+        prog.modules[v].end_acts = vec![if rng.chance(1, 2) { Act::SelfMsg { delay_ns: rng.below(20) * 1_000_000 } } else { Act::Send { gate: rng.below(3) as u32, delay_ns: rng.below(2) * 5_000_000, body: 1 } }];
+    }
+    // a module that shuts down and restarts gets a fresh tokio runtime (and respawns its tasks)
+    if rng.chance(1, 3) {
+        let v = rng.usize(nmod);
+        let restart = (rng.below(40) * 1_000_000) as i64;
+        let at = rng.below(100) * 1_000_000;
+        prog.modules[v].beats.push(Beat { at_ns: at, acts: vec![Act::Shutdown { restart, at: rng.chance(1, 2) }] });
+        prog.modules[v].beats.sort_by_key(|b| b.at_ns);
+        if prog.modules[v].tasks.is_empty() {
+            prog.modules[v].tasks = crate::asy::gen_tasks_c04(rng);
+        }
     }
     prog
 }
@@ -557,6 +577,12 @@ pub fn gen_c13(rng: &mut Rng, tier: Tier) -> NetProgram {
     for m in &mut prog.modules {
         m.tasks = crate::asy::gen_tasks_c13(rng);
     }
+    // a joined task that panics (contained by tokio, surfaced as a JoinError of that module at the end)
+    if rng.chance(1, 3) {
+        let v = rng.usize(nmod);
+        let t = crate::asy::panicking_task(rng);
+        prog.modules[v].tasks.push(t);
+    }
     prog
 }
 
@@ -669,6 +695,10 @@ pub fn gen_c20(rng: &mut Rng, tier: Tier) -> NetProgram {
         let v = rng.usize(nmod);
         prog.modules[v].rx.push(RxRule { nth: 1 + rng.below(3) as u32, act: Act::Panic });
         prog.modules[v].catching = rng.chance(1, 2);
+    }
+    if rng.chance(1, 4) {
+        let v = rng.usize(nmod);
+        prog.modules[v].end_acts = vec![if rng.chance(1, 2) { Act::SelfMsg { delay_ns: rng.below(4) * SEC / 4 } } else { Act::Send { gate: rng.below(4) as u32, delay_ns: rng.below(2) * SEC / 4, body: 1 } }];
     }
     // stopping point
     match rng.below(8) {
